@@ -494,7 +494,7 @@ def check(rep, F, tier, replay=None):
             for st in bb["st"]:
                 if st[1] == "=" and st[3][0] == "cast" and st[3][1] == "IntToInt":
                     tot_ += 1
-                    if e3_.cast_lossy(st[3][3], st[3][4]):
+                    if e3_.cast_lossy(st[3][3], st[3][4]) and not e3_.const_cast_exact(st[3][2], st[3][4]):
                         k_ = "%s|%s->%s" % (F.key(fid_.split("::{closure")[0]), st[3][3], st[3][4])
                         seen_[k_] = seen_.get(k_, 0) + 1
     rep.inst("ADDR-cast", tot_)
